@@ -99,6 +99,20 @@ def run(tier, seed, replay):
                 continue
             cases.append({"text": text, "config": cfg, "again": True, "lex": False})
             meta.append(("synth/" + name, "orig", "syn%d" % si, w))
+    # import runs: C11's generated groups (nested lists with repeated leading segments and entries not yet normalised,
+    # large groups with alias-only pairs, plain lists).  The declaration groups of C10's generator are NOT used here:
+    # on them the unchanged tree is not idempotent in several ways that belong to C10's recorded classes (duplicate
+    # entries of one list are removed only by the second pass, a comment inside a list leaves `{ c,` that the second
+    # pass tightens, ...); their instances depend on the random case, so they cannot be listed as known findings
+    if not replay or json.load(open(replay)).get("pool_id", "").startswith("imports/"):
+        from . import c11
+        k = 0
+        for c in c11.gen_cases(tier, seed + 5):
+            if c.get("form") in ("use_nested", "use_large", "uselist", "use"):
+                for t in c["texts"][:3]:
+                    k += 1
+                    cases.append({"text": t, "config": c["config"], "again": True, "lex": False})
+                    meta.append(("imports/c11.%d" % k, "orig", c["form"], "100"))
     res = common.run_vh_pool("pool", cases, per_case_timeout=15)
     n_acc = 0
     nontrivial = set()
@@ -131,7 +145,7 @@ def run(tier, seed, replay):
                       "C02 pass fixed-point theorems no longer check", no_input=True)
     rep.coverage.update({
         "evaluations": len(cases), "accepted_and_reformatted": n_acc, "distinct_nontrivial": len(nontrivial),
-        "rule": "fixed grid: committed pool (%d programs) x layouts %s (re-layouts rewrite only existing white-space tokens, deterministically per program) x presets %s x max_width %s; thorough = the whole grid, quick = the 1/%d slice selected by the seed; plus the synthetic forms stream of C01 (statement / pattern / expression / item forms x 6 layout presets x every max_width 20..130; quick: one width in six); each accepted output is formatted again under the same configuration and must be byte-identical and accepted; non-trivial = first pass changed the text; distinct by (program, layout, config)" % (len(P), layouts, presets, widths, MOD),
+        "rule": "fixed grid: committed pool (%d programs) x layouts %s (re-layouts rewrite only existing white-space tokens, deterministically per program) x presets %s x max_width %s; thorough = the whole grid, quick = the 1/%d slice selected by the seed; plus generated import runs (C11's nested lists with repeated leading segments, large groups with alias-only pairs, plain lists), plus the synthetic forms stream of C01 (statement / pattern / expression / item forms x 6 layout presets x every max_width 20..130; quick: one width in six); each accepted output is formatted again under the same configuration and must be byte-identical and accepted; non-trivial = first pass changed the text; distinct by (program, layout, config)" % (len(P), layouts, presets, widths, MOD),
         "samples": samples or [{"note": "no case changed the text"}],
         "programs": len(P),
         "timeouts": sum(1 for r in res if isinstance(r, dict) and "timeout" in r),
